@@ -15,7 +15,7 @@ from vf.xmodel import Schema, Rop, build_api, build_loader
 
 SHARDS = {'quick': 16, 'thorough': 32}
 TIMEOUT = {'quick': 900, 'thorough': 3600}
-MUST_HIT = ['Cell.read-all-spellings', 'Cell.serialize', 'Cell.where_eq',
+MUST_HIT = ['Cell.two-classes', 'Cell.read-all-spellings', 'Cell.serialize', 'Cell.where_eq',
             'Referential.write-rejected', 'Referential.ctor-keyword', 'ClassName.spellings']
 MUST_REACH = ['xtuml/meta.py:Class.__getattr__', 'xtuml/meta.py:Class.__setattr__',
               'xtuml/meta.py:Class.__delattr__', 'xtuml/meta.py:MetaModel.find_metaclass',
@@ -227,6 +227,48 @@ def class_name_checks(ctx, route):
         ctx.case_enum(True)
 
 
+def two_class_checks(ctx, route, name):
+    '''
+    Two classes whose attribute names are equal ignoring case but declared in
+    different case (X.<declared1>, Y.<declared2>): every pair of declarations,
+    every spelling written on X then on Y; each class keeps its own single cell.
+    '''
+    import xtuml
+    sps = spellings(name)
+    n = 0
+    for d1 in sps[:2] + sps[-1:]:
+        for d2 in sps:
+            sch = Schema([('Xcls', [('Id', 'UNIQUE_ID'), (d1, 'STRING')]),
+                          ('Ycls', [('Id', 'UNIQUE_ID'), (d2, 'STRING')])], [])
+            for s1 in sps:
+                for s2 in sps:
+                    m = build_api(sch) if route == 'api' else build_loader(sch)
+                    x = m.new('Xcls', **{d1: 'x0'})
+                    y = m.new('Ycls', **{d2: 'y0'})
+                    setattr(x, s1, 'x1')
+                    setattr(y, s2, 'y1')
+                    setattr(x, s2, 'x2')
+                    ctx.hit('Cell.two-classes')
+                    for inst, decl, want, kind in ((x, d1, 'x2', 'Xcls'), (y, d2, 'y1', 'Ycls')):
+                        for sp in sps:
+                            got = getattr(inst, sp)
+                            if got != want:
+                                raise Mismatch('read/stale-or-wrong-under-other-spelling',
+                                               '%s declares %s, other class declares the name as %s: after writes '
+                                               'under %s/%s, .%s reads %r, last written %r'
+                                               % (kind, decl, d2 if kind == 'Xcls' else d1, s1, s2, sp, got, want))
+                        line = [l for l in xtuml.serialize_instance(inst).splitlines() if l.strip().endswith('-- %s : STRING' % decl)]
+                        if len(line) != 1 or not line[0].strip().startswith("'%s'" % want):
+                            raise Mismatch('serialize/other-value', '%s.%s serialized as %r, cell holds %r'
+                                           % (kind, decl, line, want))
+                        if inst not in m.select_many(kind, xtuml.where_eq(**{s1: want})):
+                            raise Mismatch('filter/does-not-match-stored-value', 'where_eq(%s=%r) misses the %s instance'
+                                           % (s1, want, kind))
+                    n += 1
+                    ctx.case_enum(True)
+    return n
+
+
 def random_history(ctx, rng, route, length):
     '''three attributes, independent spellings, interleaved relate/unrelate/query/serialize'''
     import xtuml
@@ -369,6 +411,13 @@ def run(ctx):
                 class_name_checks(ctx, route)
             except Mismatch as e:
                 ctx.violation(e.key, e.what, case=dict(part='class-names', route=route))
+    if ctx.shard in (2, 3, 4):
+        name = {2: 'ab', 3: 'Nam', 4: 'Nam'}[ctx.shard]
+        route = 'loader' if ctx.shard == 4 else 'api'
+        try:
+            two_class_checks(ctx, route, name)
+        except Mismatch as e:
+            ctx.violation(e.key, e.what, case=dict(part='two-classes', route=route))
     n = ctx.share(600 if ctx.tier == 'quick' else 20000)
     for i in range(n):
         route = 'loader' if i % 5 == 0 else 'api'
